@@ -54,6 +54,40 @@ def join_script(ex, nl, nr, iters):
     return script, meta
 
 
+def _native_join(ex, algo, variant, script):
+    """run the real join operator (replay/ops_join_*.rs) on the concretised script"""
+    from mirsym.executor import RustPanic
+    args = [2, {'hash': 0, 'sort_merge': 1}[algo], {'Inner': 0, 'Left': 1, 'Outer': 2}[variant]]
+    for e in script:
+        if e.variant == 'Item':
+            b = e.fields[0]
+            if b.variant in ('Left', 'Right'):
+                args += [10 if b.variant == 'Left' else 11, hlib.concrete_int(ex, b.fields[0].fields[0]),
+                         b.fields[0].fields[1].v]
+            else:
+                args.append(12 if b.variant == 'LeftEnd' else 13)
+        else:
+            args.append(hlib.SE_VARIANTS[e.variant])
+    runner, prof = ex.env['native']
+    ex.env['native_used'] = True
+    txt = runner('join', args)[prof]
+    ex.env['native_out'] = txt
+    if txt == 'PANIC':
+        raise RustPanic('the real join operator panicked on this input')
+    out = []
+    for tok in txt.split():
+        if tok == 'OVERRUN' or tok.startswith(('BADARGS', 'UNKNOWN')):
+            raise Violation('native join run: ' + txt)
+        if tok.startswith('J('):
+            k, l, r = tok[2:-1].split(';')
+            mk = lambda v: none() if v == '-' else some(Agg('tuple', None, [Int('u64', int(k)), Int('u64', int(v))]))
+            out.append(hlib.se('Item', Agg('tuple', None, [Int('u64', int(k)), Agg('tuple', None, [mk(l), mk(r)])])))
+        else:
+            out.append(hlib.parse_token(tok))
+    ex.env['last_output'] = out
+    return out
+
+
 def join_harness(w, algo, variant, nl, nr, iters):
     tb = {'hash': 'JoinLocalHash', 'sort_merge': 'JoinLocalSortMerge'}[algo]
     new = w.impls[(None, tb)]['new'][0]
@@ -66,9 +100,12 @@ def join_harness(w, algo, variant, nl, nr, iters):
     def h(ex):
         ex.env['hash_order'] = 'any'
         script, meta = join_script(ex, nl, nr, iters)
-        op = ex.call_function(new, [hlib.Upstream(script), Enum('JoinVariant', variant, jv[variant], []),
-                                    KeyOf(), KeyOf()])
-        out = hlib.drive(ex, nxt, [op], 4 * (nl + 1) * (nr + 1) * iters + 8)
+        if ex.env.get('native'):
+            out = _native_join(ex, algo, variant, script)
+        else:
+            op = ex.call_function(new, [hlib.Upstream(script), Enum('JoinVariant', variant, jv[variant], []),
+                                        KeyOf(), KeyOf()])
+            out = hlib.drive(ex, nxt, [op], 4 * (nl + 1) * (nr + 1) * iters + 8)
         sx = lambda: {'algo': algo, 'variant': variant, 'script': [repr(e) for e in script],
                       'output': [repr(e) for e in out]}
         hlib.check_grammar(ex, out, iters, 'join output')
@@ -138,3 +175,76 @@ def join_tasks(tier, role):
                            bounds='%s outer join 3x2, 1 iteration' % algo, role=role,
                            opts={'covers': ['matched_pair']}, budget=300))
     return ts
+
+
+# ------------------------------------------------------------------------------------ interval join
+
+def interval_join_harness(w, n, iters):
+    new = w.impls[(None, 'IntervalJoin')]['new'][0]
+    nxt = w.impls[('Operator', 'IntervalJoin')]['next'][0]
+    hlib.check_se_table(w)
+    mv = dict(w.src.enum_variants('MergeElement'))
+
+    def h(ex):
+        ex.env['hash_order'] = 'any'
+        lower = ex.fresh_int('i64', 'lower')
+        upper = ex.fresh_int('i64', 'upper')
+        ex.assume(z3.And(lower.v >= 0, lower.v <= 3, upper.v >= 0, upper.v <= 3))
+        script, meta = [], []
+        idn = 0
+        for it in range(iters):
+            t = Int('i64', 10)
+            lefts, rights = [], []
+            cnt = ex.choose(n + 1, 'elements')
+            for j in range(cnt):
+                d = ex.fresh_int('i64', 'dt%d_%d' % (it, j))
+                ex.assume(z3.And(d.v >= 0, d.v <= 3))
+                t = ex.binop('Add', t, d)
+                kind = ex.choose(3, 'left/right/watermark')
+                if kind == 2:
+                    script.append(hlib.se('Watermark', t))
+                    continue
+                idn += 1
+                key = ex.fresh_int('u64', 'key%d' % idn)
+                side = 'Left' if kind == 0 else 'Right'
+                item = Agg('tuple', None, [key, Enum('MergeElement', side, mv[side], [Int('u64', idn)])])
+                (lefts if kind == 0 else rights).append((key, idn, t))
+                script.append(hlib.se('Timestamped', item, t))
+            script.append(hlib.se('FlushAndRestart'))
+            meta.append((lefts, rights))
+        script.append(hlib.se('Terminate'))
+        op = ex.call_function(new, [hlib.Upstream(script), lower, upper])
+        out = hlib.drive(ex, nxt, [op], (n * n + 4) * iters + 6)
+        sx = lambda: {'lower': repr(lower), 'upper': repr(upper), 'script': [repr(e) for e in script],
+                      'output': [repr(e) for e in out]}
+        hlib.check_grammar(ex, out, iters, 'interval join output')
+        outs = hlib.split_iterations(out)
+        for k, (lefts, rights) in enumerate(meta):
+            want = []
+            for lk, li, lt in lefts:
+                for rk, ri, rt in rights:
+                    inside = z3.And(zbool(ex.binop('Eq', lk, rk)), rt.z() >= lt.z() - lower.v, rt.z() <= lt.z() + upper.v)
+                    if ex.branch(inside, 'oracle: pair in interval'):
+                        want.append((li, ri))
+            got = []
+            for e in outs[k]:
+                if e.variant == 'Watermark':
+                    continue
+                if e.variant != 'Timestamped':
+                    raise Violation('interval join emitted %s' % e.variant, hlib._wit(ex), sx())
+                key, pair = e.fields[0].fields
+                got.append((pair.fields[0].v, pair.fields[1].v))
+            if sorted(got) != sorted(want):
+                raise Violation('interval join output %s, expected %s' % (sorted(got), sorted(want)), hlib._wit(ex), sx())
+            if want:
+                hlib.cover(ex, 'matched_pair')
+        return sx()
+    return h
+
+
+def interval_join_tasks(tier, role):
+    n, it = (3, 1) if tier == 'quick' else (4, 2)
+    return [Task('interval_join_n%d_i%d' % (n, it), 'interval_join_harness', {'n': n, 'iters': it},
+                 bounds='IntervalJoin::next, %d iteration(s) x <=%d elements (left / right / watermark) with non-decreasing '
+                        'symbolic timestamps >= 10 (steps 0..3), symbolic keys, lower/upper bounds symbolic in 0..3' % (it, n),
+                 role=role, opts={'covers': ['matched_pair']}, budget=300)]
